@@ -1,9 +1,47 @@
+import DdsModel.Drv.C01
 import DdsModel.Drv.C02
+import DdsModel.Drv.C03
+import DdsModel.Drv.C04
+import DdsModel.Drv.C05
+import DdsModel.Drv.C06
+import DdsModel.Drv.C07
+import DdsModel.Drv.C08
+import DdsModel.Drv.C09
+import DdsModel.Drv.C10
+import DdsModel.Drv.C11
+import DdsModel.Drv.C12
+import DdsModel.Drv.C13
+import DdsModel.Drv.C14
+import DdsModel.Drv.C15
+import DdsModel.Drv.C16
+import DdsModel.Drv.C17
+import DdsModel.Drv.C18
+import DdsModel.Drv.C19
+import DdsModel.Drv.C20
 open Dds.Drv
 
 def dispatch (prop : String) : Option (String → String) :=
   match prop with
+  | "C01" => some runC01
   | "C02" => some runC02
+  | "C03" => some runC03
+  | "C04" => some runC04
+  | "C05" => some runC05
+  | "C06" => some runC06
+  | "C07" => some runC07
+  | "C08" => some runC08
+  | "C09" => some runC09
+  | "C10" => some runC10
+  | "C11" => some runC11
+  | "C12" => some runC12
+  | "C13" => some runC13
+  | "C14" => some runC14
+  | "C15" => some runC15
+  | "C16" => some runC16
+  | "C17" => some runC17
+  | "C18" => some runC18
+  | "C19" => some runC19
+  | "C20" => some runC20
   | _ => none
 
 partial def loop (inp out : IO.FS.Stream) (f : String → String) (n : Nat) : IO Unit := do
